@@ -20,6 +20,12 @@ package ackhandler
 //      handshake confirmation) an ack-eliciting application-data packet is outstanding and
 //      the handler is not amplification-blocked, GetLossDetectionTimeout() is non-zero,
 //   no panic.
+//
+// Path migration (MigratedPath, the call connection.go makes when the client switches to a
+// validated path or the server follows the peer's new address) is one more operation of the
+// alphabet. It gets no clause of its own: L and B above judge it -- whatever the handler stops
+// tracking must have been reported, and bytesInFlight must still equal the ack-eliciting
+// packets that are outstanding afterwards.
 
 import (
 	"errors"
@@ -108,12 +114,14 @@ type c06Cfg struct {
 	dropH       bool
 	drop0       bool
 	retry       bool
+	migrate     bool // MigratedPath (only after handshake confirmation, as in connection.go)
 	recvBytes   []int
 	recvPkt     bool
 	maxSends    int
 	maxAcks     int
 	maxTicks    int
 	maxTimeouts int
+	maxMigr     int
 	depth       int
 }
 
@@ -201,6 +209,7 @@ type c06Inst struct {
 	mValidated                                   bool
 
 	nSends, nAcks, nTicks, nTimeouts int
+	nMigr                            int
 	dead                             bool
 	prefixFail                       *explore.Fail
 	outcome                          string
@@ -232,7 +241,7 @@ func newC06Inst(cfg *c06Cfg) *c06Inst {
 			break
 		}
 	}
-	in.nSends, in.nAcks, in.nTicks, in.nTimeouts = 0, 0, 0, 0
+	in.nSends, in.nAcks, in.nTicks, in.nTimeouts, in.nMigr = 0, 0, 0, 0, 0
 	in.outcome = ""
 	return in
 }
@@ -364,6 +373,9 @@ func (in *c06Inst) Ops() []explore.Op {
 	if c.retry && c.pers == protocol.PerspectiveClient && !in.retried && !in.received && !in.sentH && !in.sent1RTT &&
 		!in.sp[c06I].dropped && len(in.sp[c06I].sent) > 0 {
 		ops = append(ops, explore.Op{N: "retry"})
+	}
+	if c.migrate && in.sp[c06H].dropped && (c.maxMigr == 0 || in.nMigr < c.maxMigr) {
+		ops = append(ops, explore.Op{N: "migrate"})
 	}
 	if c.pers == protocol.PerspectiveServer && !in.mValidated {
 		for _, n := range c.recvBytes {
@@ -632,6 +644,17 @@ func (in *c06Inst) Apply(op explore.Op) *explore.Fail {
 			in.sp[s].retryBoundary = pk
 		}
 		in.outcome = "retry"
+	case "migrate":
+		// what is in flight on the old path (classification only; the verdict comes from L and B)
+		var n [5]int
+		for _, p := range in.pkts {
+			if p.state == c06Out && c06Space(p.level) == 2 && in.tracked(p) {
+				n[p.kind]++
+			}
+		}
+		in.api.MigratedPath(in.now, 1200)
+		in.nMigr++
+		in.outcome = fmt.Sprintf("migrate inflight elic=%d ackonly=%d multi=%d mtu=%d pathprobe=%d", min(n[c06Elic], 2), min(n[c06AckOnly], 2), min(n[c06Multi], 2), min(n[c06MTU], 2), min(n[c06Path], 2))
 	case "recvBytes":
 		in.api.ReceivedBytes(protocol.ByteCount(op.A), in.now)
 		in.mRecv += protocol.ByteCount(op.A)
@@ -814,8 +837,8 @@ func (in *c06Inst) Key() string {
 			return typ == "ackhandler.skippingPacketNumberGenerator" && field == "rng"
 		},
 	}))
-	fmt.Fprintf(&sb, "|dead=%v d0=%v rt=%v rc=%v s1=%v sH=%v s0=%d ms=%d mr=%d mv=%v n=%d,%d,%d,%d|", in.dead, in.dropped0, in.retried, in.received,
-		in.sent1RTT, in.sentH, in.sent0RTT, in.mSent, in.mRecv, in.mValidated, in.nSends, in.nAcks, in.nTicks, in.nTimeouts)
+	fmt.Fprintf(&sb, "|dead=%v d0=%v rt=%v rc=%v s1=%v sH=%v s0=%d ms=%d mr=%d mv=%v n=%d,%d,%d,%d,%d|", in.dead, in.dropped0, in.retried, in.received,
+		in.sent1RTT, in.sentH, in.sent0RTT, in.mSent, in.mRecv, in.mValidated, in.nSends, in.nAcks, in.nTicks, in.nTimeouts, in.nMigr)
 	for i := range in.sp {
 		fmt.Fprintf(&sb, "sp%d:%v,%d,%v|", i, in.sp[i].dropped, in.sp[i].retryBoundary, in.sp[i].sent)
 	}
